@@ -14,6 +14,7 @@ import provfam
 import typefam
 import boundsfam
 import termfam
+import crashfam
 from vlib import InfraError
 
 CHECKS = {}
@@ -32,6 +33,8 @@ def replay(ctx, path):
     fam = obj.get("replay_family", "eval")
     if fam == "eval":
         return evalfam.replay(ctx, obj)
+    if fam == "crash":
+        return crashfam.replay(ctx, obj)
     if fam == "terms":
         return termfam.replay(ctx, obj)
     if fam == "bounds":
@@ -145,3 +148,8 @@ def c08(ctx):
 @register("C09")
 def c09(ctx):
     return termfam.check_c09(ctx)
+
+
+@register("C10")
+def c10(ctx):
+    return crashfam.check_c10(ctx)
